@@ -455,12 +455,12 @@ def cmpV (c : Ctx) (flat : Bool) (e : VExp) (tok : String) (rv : List Rat) : Ver
     else cmpOut c (.quot num aN den aD false) tok
   | .sqrtQuot num den κn κd =>
     match parseRat tok with
-    | none =>
-      -- sqrt of a negative residue / division by a zero residue: only where the exact radicand vanishes up to the allowance
-      if den ≤ c.allow (κd * c.M * c.M) then .exempt else .bad s!"non-finite value {tok} with radicand {ratStr den}"
+    | none => .bad s!"non-finite value {tok} (radicand {ratStr den})"
     | some y =>
       let aN := c.allow (κn * c.M)
       let aD := c.allow (κd * c.M * c.M)
+      -- radicand zero up to the allowance ((almost) constant window): the code's `q > 0` guard sees rounding residue
+      -- (even on a constant stream, where `sy2` and `sma·sy` are rounded differently); nothing to compare
       if den ≤ 2 * aD then .exempt
       else
         let nl := ratMax (ratAbs num - aN) 0
@@ -540,6 +540,7 @@ def rangeSpec (name : String) (kinds : List String) : RangeSpec :=
   | "ChaikinMoneyFlow" => { intervals := [(0, -1, 1)] }
   | "TrueStrengthIndex" => { intervals := [(0, -1, 1), (1, -1, 1)] }
   | "SMIErgodicIndicator" => if smooth then { intervals := [(0, -1, 1), (1, -1, 1)] } else { intervals := [(0, -1, 1)] }
+  | "TrendStrengthIndex" => { intervals := [(0, -1, 1)] }
   | "BollingerBands" => { orders := [(0, 1), (1, 2)] }
   | "KeltnerChannel" => { orders := [(1, 2)] }
   | "DonchianChannel" => { orders := [(2, 1), (1, 0)] }
